@@ -52,4 +52,12 @@ META["C17"] = {
     "text": "Bounded symbolic model checking of EncodeBIP276 / DecodeBIP276 / ValidateAddress for all 65,025 version/network pairs at once (two symbolic bytes), both prefixes and symbolic payloads up to L bytes: round trip, layout against a reference built from the BIP text, rejection of a wrong checksum character and of non-hex characters at every position. The regular expression is executed by a backtracking matcher model in which every character-class test is a solver-decided fork.",
     "note": "Trusted: gosym, z3, the regexp matcher model (validated by native replay), compact encoding/hex model, SHA-256 uninterpreted. Known finding: the encoder writes network before version (pinned by TestEncodeBIP276).",
 }
+META["C16"] = {
+    "text": "Bounded symbolic model checking with encoding/json modelled at the value level (custom Marshal/UnmarshalJSON methods of go-bt are executed for real): library and node-style JSON of transactions (unsigned / partially signed / signed inputs), outputs, UTXOs and UTXO lists: marshal never faults, round trips preserve serialisation, ids, scripts and amounts. Amount conversions are decided twice: the exact IEEE-754 encoding (QF_FP) provides counterexamples (every sat is a real amount, replayed natively); the obligations it cannot finish are discharged under a sound real-number over-approximation (each float operation within relative error 2^-53) over the whole range 0..21e14.",
+    "note": "Trusted: gosym, z3 (QF_FP, LRA), the encoding/json contract (Marshal then Unmarshal of the same wire struct types is the identity; text and float formatting not modelled), compact encoding/hex model. The ambiguous no-input/no-output/locktime 000000EF shape is excluded as in C01.",
+}
+META["C19"] = {
+    "text": "Bounded symbolic model checking: from one arbitrary symbolic interpreter state the real Step is executed twice - without a debugger and with a recording debugger that scribbles over every stack slice and counter of every snapshot it receives; the solver decides equality of verdict, stacks and control state for every opcode, and the callback log is checked against the documented order; whole executions of short scripts are compared the same way through Engine.Execute.",
+    "note": "Trusted: gosym alias-exact heap (a snapshot sharing memory with the thread would make the two runs differ). Bounds as C07 (stack depth, item size, loop cut); signature opcodes excluded; debug.NewDebugger fan-out helper not covered.",
+}
 NOT_APPLICABLE = {}
